@@ -112,7 +112,14 @@ def run(ctx):
         r_int, r_f64, r_f32, r_aff = (r["r64"] for r in rs)
         dist["zero_results"] += 1 if r_int == 0 else 0
         full = dict(m, values=b["values"], miss=b["miss"])
-        if abs(r_int - want) > 1e-9 or abs(r_f64 - want) > 1e-9:
+        # binary64 evaluation from raw moments: the variance terms n*Sxx - Sx*Sx cancel (level / spread)^2 of the leading digits, which no
+        # evaluation order avoids; the tolerance is 1e-9 plus 8 units of binary64 roundoff amplified by that factor (4e-8 for a level of
+        # 20000 with a spread of 3; 1e-9 for ordinary series)
+        vv = [float(x) for x, mm in zip(b["values"], b["miss"]) if not mm]
+        ss = sum((v - sum(vv) / len(vv)) ** 2 for v in vv) if vv else 0.0
+        tol64 = 1e-9 + (8 * 2.0 ** -53 * sum(v * v for v in vv) / ss if ss > 0 else 0.0)
+        dist["max_tolerance"] = max(dist.get("max_tolerance", 0.0), tol64)
+        if abs(r_int - want) > tol64 or abs(r_f64 - want) > tol64:
             spec_fail.append((full, "autocorr = %r (int/nodata), %r (float/NaN); Pearson correlation of the mean-filled vectors is %r" % (r_int, r_f64, want)))
         elif not (-1 - 1e-12 <= r_int <= 1 + 1e-12 and -1 - 1e-12 <= r_f64 <= 1 + 1e-12):
             spec_fail.append((full, "value outside [-1, 1]: %r" % r_int))
@@ -120,7 +127,10 @@ def run(ctx):
             spec_fail.append((full, "float32 input: %r vs %r" % (r_f32, want)))
         if cs[3].get("affine"):
             dist["affine_pairs"] += 1
-            if abs(r_aff - r_int) > 1e-9:
+            va = [float(x) for x, mm in zip(cs[3]["data"], b["miss"]) if not mm]
+            sa = sum((v - sum(va) / len(va)) ** 2 for v in va) if va else 0.0
+            tol_aff = 1e-9 + (8 * 2.0 ** -53 * sum(v * v for v in va) / sa if sa > 0 else 0.0)     # the rescaled series sits on another level
+            if abs(r_aff - r_int) > tol64 + tol_aff:
                 spec_fail.append((dict(full, affine=cs[3]["data"] if n <= 24 else None), "positive affine rescaling changes the value: %r vs %r" % (r_aff, r_int)))
         for c, r in zip(cs, rs):
             if r["dtypes"] != ["float32", "float32"] or abs(r["yxt"] - float(np.float32(r["r64"]))) > 0 or abs(r["tyx"] - float(np.float32(r["r64"]))) > 0:
@@ -144,7 +154,7 @@ def run(ctx):
                      spec_failures=len(spec_fail))
     ctx.add_samples([imeta[0], imeta[1], fmeta[2]])
     ctx.assumptions += ["pow(v, -0.5) is libm's (recorded per variance; the model must produce the bit-identical variance)",
-                        "the independent definition is evaluated in exact rationals up to the final square roots; tolerance 1e-9 (1e-6 for float32 input)"]
+                        "the independent definition is evaluated in exact rationals up to the final square roots; tolerance 1e-9 + 8 ulp * sum v^2 / sum (v - mean)^2 (the cancellation of the raw-moment formula; 1e-6 for float32 input)"]
     for r, tag in ((r1, "int"), (r2, "float")):
         for si, lg in r["errors"]:
             ctx.violation("Coq could not evaluate the %s cases" % tag, dict(kind="coq-eval-error", log=lg), found_input=False)
